@@ -63,6 +63,7 @@ type Snapshot struct {
 }
 
 type ActiveLoop struct {
+	L       *Loop
 	Header  *ssa.BasicBlock
 	Frame   int // frame depth
 	Variant *Term
@@ -170,6 +171,10 @@ func (st *State) assume(t *Term) {
 	if t.IsTrue() {
 		return
 	}
+	if t.open {
+		// facts mentioning a bound variable (type-range facts of reads at bound indices) never enter the path condition
+		return
+	}
 	if st.pcSeen == nil {
 		st.pcSeen = map[int]bool{}
 	}
@@ -228,6 +233,8 @@ type Ctx struct {
 	Trace    bool
 	Notes    []string
 	curState *State
+	NoMerge bool
+	Merges int
 	ParamVals []Value
 	InitSym map[int]*Object
 	InlineAll bool
@@ -307,13 +314,9 @@ func (c *Ctx) symbolic(st *State, t types.Type, name string) Value {
 	switch u := under(t).(type) {
 	case *types.Basic:
 		if isString(t) {
-			ln := Var(c.freshName(name+".len"), c.IntSort())
-			st.assume(Cmp(">=", ln, c.idx(0), true))
-			if !c.BV {
-				st.assume(Cmp("<=", ln, IntBig(new(big.Int).Lsh(big.NewInt(1), 40)), true))
-			}
-			arr := Var(c.freshName(name+".bytes"), ArraySort(c.IntSort(), c.byteSort()))
-			return StrV{Arr: arr, Off: c.idx(0), Len: ln}
+			id := Var(c.freshName(name+".str"), IntSort)
+			st.assume(Cmp(">=", id, IntC(0), true))
+			return c.strOfID(st, id)
 		}
 		if u.Kind() == types.UntypedNil {
 			return nil
@@ -416,9 +419,7 @@ func (c *Ctx) leavesOf(elem types.Type) []leaf {
 		switch u := under(t).(type) {
 		case *types.Basic:
 			if isString(t) {
-				mk("strarr", ArraySort(c.IntSort(), c.byteSort()))
-				mk("stroff", c.IntSort())
-				mk("strlen", c.IntSort())
+				mk("str", IntSort)
 				return
 			}
 			mk("scalar", c.sortOfBasic(t))
@@ -497,9 +498,7 @@ func (c *Ctx) heapRead(st *State, elem types.Type, ref, idx *Term, path []int) V
 		switch u := under(t).(type) {
 		case *types.Basic:
 			if isString(t) {
-				ln := get(p, "strlen")
-				st.assume(Cmp(">=", ln, c.idx(0), true))
-				return StrV{Arr: get(p, "strarr"), Off: get(p, "stroff"), Len: ln}
+				return c.strOfID(st, get(p, "str"))
 			}
 			v := get(p, "scalar")
 			st.assume(c.rangeFact(v, t))
@@ -565,10 +564,7 @@ func (c *Ctx) heapWrite(st *State, elem types.Type, ref, idx *Term, path []int, 
 		switch u := under(t).(type) {
 		case *types.Basic:
 			if isString(t) {
-				s := c.strSym(st, v.(StrV))
-				set(p, "strarr", s.Arr)
-				set(p, "stroff", s.Off)
-				set(p, "strlen", s.Len)
+				set(p, "str", c.strID(st, v.(StrV)))
 				return
 			}
 			set(p, "scalar", v.(*Term))
@@ -984,8 +980,11 @@ func (c *Ctx) valueEq(st *State, a, b Value) *Term {
 		}
 		unsupported("compare interfaces %s / %s", showValue(a), showValue(b))
 	case SliceV:
-		// only comparison with nil is legal in Go
+		// Go only allows comparison with nil; contracts use == on slices for header identity
 		y := b.(SliceV)
+		if x.Heap && y.Heap {
+			return And(Eq(x.Ref, y.Ref), Eq(x.Off, y.Off), Eq(x.Len, y.Len), Eq(x.Cap, y.Cap))
+		}
 		if !y.Heap && y.Obj == nil {
 			if x.Heap {
 				return Eq(x.Ref, IntC(0))
